@@ -57,7 +57,7 @@ def data_arg(case):
     if case.get("dask"):
         return sut.dask_rows(X, case["chunks"])
     how = case.get("how", "plain")
-    return sut.present(X, "plain" if how == "int" else how)
+    return sut.present(X, how)
 
 
 def model_tol(ctx, got, want, X, what, rtol):
@@ -74,7 +74,7 @@ def g_step(draw):
     c["isolate"], c["order_seed"] = gen.boolean(draw), gen.integer(draw, 0, 999)
     c["chunks"] = gen.composition(draw, c["X"].shape[0])
     c["count_floor"] = gen.choice(draw, [EPS, EPS, 1e-6])
-    c["how"] = gen.presentation(draw)
+    c["how"] = gen.presentation_for(draw, c)
     return c
 
 
@@ -108,7 +108,7 @@ def c_step(ctx, case):
 def g_traj(draw):
     c = gen.gmm_training_case(draw, max_rows=40 if gen.big() else 24)
     c["K"] = gen.integer(draw, 2, 8 if gen.big() else 6)
-    c["how"] = gen.presentation(draw)
+    c["how"] = gen.presentation_for(draw, c)
     c["dask"] = gen.boolean(draw)
     c["isolate"], c["order_seed"] = gen.boolean(draw), gen.integer(draw, 0, 999)
     c["chunks"] = gen.composition(draw, c["X"].shape[0], max_parts=6)
